@@ -157,10 +157,14 @@ def ops_module(idx, n, kind, entry, ops=None, generic=False, bounds=None, selfbo
     ty = "X" if generic else "::dx_support::Tm"
     g = "<X>" if generic else ""
     wh = ""
+    only = ""
+    if generic and selfbound:
+        # `Only<U>` holds for U = T<Tm> alone: an impl in which the struct's `Self` came to mean something else does not apply
+        only = "    pub trait Only<U: ?::core::marker::Sized> {}\n    impl Only<T<::dx_support::Tm>> for ::dx_support::Tm {}"
     if generic and selfbound == "inline":
-        g = "<X: ::dx_support::Rel<Self>>"
+        g = "<X: ::dx_support::Rel<Self> + Only<Self>>"
     elif generic and selfbound == "where":
-        wh = " where X: ::dx_support::Rel<Self>"
+        wh = " where X: ::dx_support::Rel<Self> + Only<Self>"
     TT = "T<::dx_support::Tm>" if generic else "T"
     if kind == "unit":
         decl = "pub struct T%s;" % g if not generic else None
@@ -181,7 +185,7 @@ def ops_module(idx, n, kind, entry, ops=None, generic=False, bounds=None, selfbo
             decl = "pub struct T%s { %s }" % (g, ", ".join(("%sf%d: %s" % (fa if j == n - 1 else "", j, ty)) for j in range(n)))
         else:
             decl = "pub struct T%s(%s);" % (g, ", ".join(((fa if j == n - 1 else "") + ty) for j in range(n)))
-    lines = ["pub mod m%d {" % idx, "    use ::dx_support::{tm, Tm};", "    %s %s" % (derive_head(dtraits, entry), decl)]
+    lines = ["pub mod m%d {" % idx, "    use ::dx_support::{tm, Tm};", only, "    %s %s" % (derive_head(dtraits, entry), decl)]
 
     def ctor(c):
         args = ["tm(\"%s%d\")" % (c, j) for j in range(n)]
@@ -256,10 +260,12 @@ def implop_module(idx, op, base, rhs_self, want_bin, want_assign, base_is_assign
     if generic:
         L, R = L + "<G>", R + "<G>"
         mk2 = ", ::core::marker::PhantomData"
+        # `Only<U>` holds for U = the user's own Self type and nothing else: a generated impl in which `Self` came to mean
+        # another type (or was not carried over) stops applying at the call sites of the driver
         if generic == "where":
-            ig, iw = "<G>", " where G: ::core::marker::Copy, Self: ::core::marker::Sized"
+            ig, iw = "<G>", " where G: ::core::marker::Copy + Only<Self>, Self: ::core::marker::Sized"
         else:
-            ig = "<G: ::core::marker::Copy + ::dx_support::Rel<Self>>"
+            ig = "<G: ::core::marker::Copy + ::dx_support::Rel<Self> + Only<Self>>"
     fn = FN[op]
     req = ([op] if want_bin else []) + ([op + "Assign"] if want_assign else [])
     attr = ", ".join(req)
@@ -270,7 +276,8 @@ def implop_module(idx, op, base, rhs_self, want_bin, want_assign, base_is_assign
         ctor = L.split("<")[0]
         impl = ("impl%s ::core::ops::%s<%s> for %s%s { type Output = %s; fn %s(self, rhs: %s) -> %s { ::dx_support::log(\"call\".to_string()); "
                 "%s(format!(\"base({},{})\", self.0, rhs.0)%s) } }" % (ig, op, refty(R, br == "r"), refty(L, bl == "r"), iw, L, fn, refty(R, br == "r"), L, ctor, mk2))
-    lines = ["pub mod m%d {" % idx, GENERIC_OPERANDS if generic else LOCAL_OPERANDS, "    #[::derive_ex::derive_ex(%s)] %s" % (attr, impl)]
+    only = ("    pub trait Only<U: ?::core::marker::Sized> {}\n    impl<%sG> Only<%sLT<G>> for G {}" % (("'x, ", "&'x ") if (bl == "r" and not base_is_assign) else ("", ""))) if generic else ""
+    lines = ["pub mod m%d {" % idx, GENERIC_OPERANDS if generic else LOCAL_OPERANDS, only, "    #[::derive_ex::derive_ex(%s)] %s" % (attr, impl)]
     lines.append("    fn counts(lg: &[String]) -> (usize, usize, usize) { (lg.iter().filter(|s| *s == \"call\").count(), "
                  "lg.iter().filter(|s| s.starts_with(\"clone\") && s.ends_with(\":L\")).count(), lg.iter().filter(|s| s.starts_with(\"clone\") && s.ends_with(\":R\")).count()) }")
     lines.append("    pub fn run() -> String {\n        let mut out = String::new();")
@@ -500,7 +507,7 @@ DEREF_SELF = """pub mod m%d {
         let mut_same_address = { let p: *const ::std::vec::Vec<(u8, ::core::option::Option<::std::boxed::Box<T<u8>>>)> = &x.0; let q: *const ::std::vec::Vec<(u8, ::core::option::Option<::std::boxed::Box<T<u8>>>)> = <T<u8> as ::core::ops::DerefMut>::deref_mut(&mut x); ::core::ptr::eq(p, q) };
         <T<u8> as ::core::ops::DerefMut>::deref_mut(&mut x).push((2u8, ::core::option::Option::None));
         let write_lands = x.0.len() == 2;
-        format!("{{\"id\":%d,\"same_address\":{},\"target_is_field_type\":{},\"mut_same_address\":{},\"write_lands\":{}}}\n",
+        format!("{{\\"id\\":%d,\\"same_address\\":{},\\"target_is_field_type\\":{},\\"mut_same_address\\":{},\\"write_lands\\":{}}}\n",
                 same_address, target_is_field_type, mut_same_address, write_lands)
     }
 }"""
